@@ -5,16 +5,16 @@
 
 Require Extraction.
 Require Import ExtrOcamlBasic.
-From SwiftMT Require Import Base.Bytes Dispatch.Model Dispatch.Facts Dispatch.Instance.
+From SwiftMT Require Import Base.Bytes Dispatch.Model Dispatch.Facts Dispatch.Defs.
 From SwiftMT Require Import Dates.DateTime Num.Amount Classify.Model Headers.Hdr12 Headers.Hdr35 Headers.B3 Headers.Blocks Legacy.Block4Map Legacy.Tracker.
-From SwiftMT Require Import Family.Model Family.Instance Rules.Msg Rules.All Fmt.Model Fmt.Instance.
-From SwiftMT Require Import Base.StrOps Engine.Layout Engine.Tokens Engine.Extract Engine.Instance Engine.Factor Engine.Regex Engine.AbsInstance gen.Specs.
+From SwiftMT Require Import Family.Model Family.Defs Rules.Msg Rules.All Fmt.Model Fmt.Defs.
+From SwiftMT Require Import Base.StrOps Engine.Layout Engine.Tokens Engine.Extract Engine.Defs Engine.Factor Engine.Regex Engine.AbsInstance gen.Specs.
 
 Extraction "swiftmt_model.ml"
   Dispatch.Model.parse_typed Dispatch.Model.parse_auto Dispatch.Model.plugin_parse
   Dispatch.Model.plugin_validate Dispatch.Model.publish Dispatch.Model.wrapper_validate
-  Dispatch.Instance.gen_tables Dispatch.Facts.supported
-  Engine.Extract.brun Engine.Tokens.trun Engine.Instance.layout_of Engine.Extract.extract_field_content
+  Dispatch.Defs.gen_tables Dispatch.Facts.supported
+  Engine.Extract.brun Engine.Tokens.trun Engine.Defs.layout_of Engine.Extract.extract_field_content
   Engine.Extract.b_detect Engine.Extract.b_complete Engine.Factor.is_canonical Engine.Regex.matchb gen.Specs.specs Engine.AbsInstance.inclusion_open Engine.AbsInstance.check_type
   Dates.DateTime.date_of Dates.DateTime.parse_time_hhmm Dates.DateTime.offset_ok Dates.DateTime.format_yymmdd Dates.DateTime.format_hhmm
   Num.Amount.parse_amount Num.Amount.parse_amount_dec Num.Amount.to_bits Num.Amount.format_amount Num.Amount.to_dec
@@ -22,5 +22,5 @@ Extraction "swiftmt_model.ml"
   Headers.Hdr12.parse_b1 Headers.Hdr12.display_b1 Headers.Hdr12.parse_b2 Headers.Hdr12.display_b2 Headers.Hdr12.message_type_of
   Headers.Blocks.extract_block Headers.Blocks.trailer_display Headers.Blocks.user_header_display Headers.Hdr35.read_tag
   Legacy.Block4Map.parse_block4_fields Legacy.Block4Map.stamp Legacy.Tracker.lookup_variant Legacy.Tracker.split_into_sequences Legacy.Tracker.get_sequence_config
-  Family.Model.named_core Family.Model.pwv_core Family.Instance.family_named Family.Instance.ptag Family.Instance.positions
-  Rules.All.validate_rules Fmt.Instance.format_accepts.
+  Family.Model.named_core Family.Model.pwv_core Family.Defs.family_named Family.Defs.ptag Family.Defs.positions
+  Rules.All.validate_rules Fmt.Defs.format_accepts.
